@@ -70,7 +70,9 @@ class Atom:
                 return str(k[1])
             return str(k)[:40]
         if self.kind == 'bool':
-            return '[%s %s %s]' % (show_key(self.key[2], depth), self.key[1], show_key(self.key[3], depth))
+            if len(self.key) == 4 and self.key[1] in ('<', '=='):
+                return '[%s %s %s]' % (show_key(self.key[2], depth), self.key[1], show_key(self.key[3], depth))
+            return '[%s#%d]' % (self.key[1], _ord(self))
         if self.kind == 'wide':
             return 'wide#%d' % _ord(self)
         if self.kind == 'lit':
@@ -948,6 +950,19 @@ class Interp:
             return self.call_node(n, env, mod)
         if t is ast.ListComp or t is ast.GeneratorExp:
             return self.comp(n, env, mod)
+        if t is ast.DictComp:
+            out = {}
+            def rec(i, e):
+                if i == len(n.generators):
+                    out[self.ev(n.key, e, mod)] = self.ev(n.value, e, mod); return
+                g = n.generators[i]
+                for item in self.ev(g.iter, e, mod):
+                    e2 = {'v': {}, 'p': e}
+                    self.assign(g.target, item, e2, mod)
+                    if all(self.ev(c, e2, mod) for c in g.ifs):
+                        rec(i + 1, e2)
+            rec(0, env)
+            return out
         if t is ast.JoinedStr:
             return '<fstr>'
         if t is ast.Starred:
@@ -1239,6 +1254,15 @@ class Interp:
             ax = kw.get('axis_name', args[1] if len(args) > 1 else None)
             op = name.rsplit('.', 1)[1]
             return self.tree_map(('prim', op, lambda x: elemwise(lambda v: uf(op, v, ax), x)), args[0])
+        if name in ('jax.random.split', 'jax.random.fold_in'):
+            key = asarr(args[0])
+            n = kw.get('num', args[1] if len(args) > 1 else 2)
+            if name.endswith('fold_in'):
+                return elemwise(lambda k_: uf('fold_in', k_, args[1]), key)
+            n = int(Rat.lift(n).constval()) if isinstance(n, Rat) else int(n)
+            if key.ndim == 1:
+                return np.stack([np.array([uf('split', key, i, c) for c in range(key.shape[0])], dtype=object) for i in range(n)])
+            raise OutOfFragment('split of a batch of keys')
         if name == 'jax.nn.softplus':
             return elemwise(lambda v: uf('softplus', v), args[0])
         if name == 'jax.random.normal':
@@ -1582,7 +1606,14 @@ class Interp:
                 else:
                     raise OutOfFragment('decorator ' + dn)
             env['v'][s.name] = fn; return
-        if t is ast.Assert or t is ast.Pass or t is ast.Delete:
+        if t is ast.Delete:
+            for tg in s.targets:
+                if isinstance(tg, ast.Subscript):
+                    obj = self.ev(tg.value, env, mod)
+                    if isinstance(obj, dict):
+                        obj.pop(self.ev_index(tg.slice, env, mod), None)
+            return
+        if t is ast.Assert or t is ast.Pass:
             return
         if t is ast.Raise:
             raise OutOfFragment('raise reached: ' + ast.unparse(s)[:60])
